@@ -1,15 +1,41 @@
 package checks
 
 import (
+	"fmt"
 	"regexp"
 	"strings"
+
+	"mvdan.cc/sh/v3/shell"
 )
 
 var (
 	c25BraceAfterName = regexp.MustCompile(`\$[A-Za-z_]([A-Za-z0-9_]|\\\n)*\{a,b\}`)
 	c25EscParamBrace  = regexp.MustCompile(`(?s)\\\$\{[^{}]*\}.*\\\{a,b\}`)
 	c25Count          = regexp.MustCompile(`^0:([0-9]+):`)
+	// round 3 (composite items)
+	c25PidBrace     = regexp.MustCompile(`\$\$\{[^{}]*,[^{}]*\}`)
+	c25ReplStar     = regexp.MustCompile(`\$\{V//?\*/[^}]+\}`)
+	c25ReplAnchored = regexp.MustCompile(`\$\{V/[#%][^}]*\}`)
+	c25DefQuoteVar  = regexp.MustCompile(`\$\{V:?-"\$V"[a-z]+\}`)
 )
+
+// c25Sh is what the function under test gives for s, rendered like the
+// check's own comparison text ("" on error).
+func c25Sh(t c25Case, s string) string {
+	envf := c25EnvFunc(t.Env)
+	res := ""
+	func() {
+		defer func() { recover() }()
+		if t.Fn == "Expand" {
+			if out, err := shell.Expand(s, envf); err == nil {
+				res = "0:" + out + "\n"
+			}
+		} else if out, err := shell.Fields(s, envf); err == nil {
+			res = fmt.Sprintf("0:%d:<%s>", len(out), strings.Join(out, "><"))
+		}
+	}()
+	return res
+}
 
 // c25Classify names the narrow divergence families recorded as known
 // findings (syntactic shape of the input plus direction of the divergence).
@@ -29,7 +55,27 @@ func c25Classify(t c25Case, shErr error, shOut string, bashOK bool, bashGot stri
 		// bash brace-expands textually before parameter expansion, so
 		// $V{a,b} becomes $Va $Vb; sh expands $V and then the braces
 		return "brace-expansion-extends-parameter-name"
-	case t.Fn == "Fields" && bothOK && strings.Contains(s, "$${a,b}"):
+	case bothOK && t.Env != 2 && c25ReplStar.MatchString(s) && bashGot == c25Sh(t, c25ReplStar.ReplaceAllLiteralString(s, "")):
+		// same family as C21 replace-on-unset-inserts-replacement: ${V/*/r}
+		// of an unset V yields r; for bash the whole expansion is empty
+		// (bash's result is what sh gives for the string without the item)
+		return "replace-on-unset-inserts-replacement"
+	case bothOK && t.Env == 2 && c25ReplAnchored.MatchString(s) && shOut == c25Sh(t, c25ReplAnchored.ReplaceAllLiteralString(s, "${V}")):
+		// same family as C21 replace-anchor-unsupported: ${V/#p/r} ${V/%p/r}
+		// leave the value as it is (sh's result is what it gives for ${V})
+		return "replace-anchor-unsupported"
+	case shErr != nil && bashOK && t.Env != 2 && strings.Contains(s, "${V:=") && shErr.Error() == "environment is read-only":
+		// ${V:=w} with V unset: the func(string) string environment cannot
+		// be assigned to, so the expansion fails; bash assigns and yields w
+		return "assign-default-needs-writable-environment"
+	case bothOK && t.Env != 2 && c25DefQuoteVar.MatchString(s) && (t.Fn == "Expand" || strings.Contains(s, `"${V`)) &&
+		bashGot == c25Sh(t, c25DefQuoteVar.ReplaceAllLiteralString(s, "")):
+		// bash 5.2 quirk: inside double quotes (and here-documents) the
+		// default word "$W"z - a quoted expansion directly followed by a
+		// letter - expands to nothing even when W is set ("${V:-"$W"z}" gives
+		// "", unquoted ${V:-"$W"z} gives wz, dash gives wz in both)
+		return "bash-quoted-default-word-expansion-then-letter"
+	case t.Fn == "Fields" && bothOK && (strings.Contains(s, "$${a,b}") || c25PidBrace.MatchString(s)):
 		// bash's brace scanner skips "${", so $${a,b} stays unexpanded
 		return "pid-then-brace-expansion"
 	case t.Fn == "Fields" && shErr == nil && !bashOK && strings.Contains(s, `"`) && strings.Contains(s, "$$("):
@@ -42,9 +88,11 @@ func c25Classify(t c25Case, shErr error, shOut string, bashOK bool, bashGot stri
 		// \${V}\{a,b} bash finds no comma in {V}, keeps scanning and
 		// takes "V}\{a" and "b" as the alternatives
 		return "close-brace-after-commaless-group"
-	case t.Fn == "Fields" && bothOK && t.Env == 2 && c25HasLoneDollar(s) && c25NFields(shOut) > c25NFields(bashGot):
+	case t.Fn == "Fields" && bothOK && t.Env == 2 && c25HasLoneDollar(s) && (c25NFields(shOut) > c25NFields(bashGot) ||
+		c25NFields(shOut) == c25NFields(bashGot) && strings.ReplaceAll(shOut, " ", "") == strings.ReplaceAll(bashGot, " ", "")):
 		// bash quirk: a literal "$" in a word suppresses field splitting of
-		// the whole word (dash splits like sh)
+		// the whole word (dash splits like sh); with one field on both sides
+		// the unsplit field keeps its leading/trailing blanks
 		return "bash-literal-dollar-suppresses-splitting"
 	}
 	return ""
